@@ -14,7 +14,7 @@ does not use the model's state or functions.
 Op lines (`ch=@k` names the temp channel of slot k):
   reset local=F | addch ch=C | getch ch=C | delch ch=C | join ch=C front=F id=N |
   leave ch=C front=F id=N | bcast ch=C route=R msg=M | alloctemp slot=K | freetemp slot=K |
-  sadd | sdel id=N | spush ids=N,N route=R data=HEX | syspush ids=.. route=R data=HEX
+  sadd | sdel id=N | sclose id=N (the socket of a registered connection closes: its Push fails) | spush ids=N,N route=R data=HEX | syspush ids=.. route=R data=HEX
 large groups (sugar for the obvious sequences of join / leave, observation `ok`):
   joinrange ch=C front=F lo=A hi=B        joins A, A+1, .., B-1
   leaverange ch=C front=F lo=A hi=B dir=up|down   leaves A..B-1 ascending / descending
@@ -174,6 +174,7 @@ def parseCmd (line : String) : Cmd :=
   | some "freetemp" => match kv ws "slot" with | some k => .free k | none => .bad
   | some "sadd" => .op .sadd
   | some "sdel" => match (kv ws "id").bind parseU32 with | some x => .op (.sdel x) | none => .bad
+  | some "sclose" => match (kv ws "id").bind parseU32 with | some x => .op (.sclose x) | none => .bad
   | some "spush" =>
     match (kv ws "ids").bind parseIds, kv ws "route", kvHex ws "data" with
     | some ids, some r, some d => .op (.spush ids r d)
@@ -199,13 +200,13 @@ def parseCmd (line : String) : Cmd :=
 structure DSt where
   st : St := init ""
   slots : List String := []
-  b : Front := ⟨[], 1⟩        -- the second front-end service's sessions
+  b : Front := ⟨[], 1, []⟩        -- the second front-end service's sessions
   bname : String := ""        -- its name ("" = there is none)
 
 def stepCore (d : DSt) (line : String) : DSt × String :=
-  let showObs := showObsW d.st.localFront d.bname d.b.live
+  let showObs := showObsW d.st.localFront d.bname d.b.reachable
   match parseCmd line with
-  | .reset lf g => ({ st := init lf, slots := [], b := ⟨[], 1⟩, bname := g }, "ok")
+  | .reset lf g => ({ st := init lf, slots := [], b := ⟨[], 1, []⟩, bname := g }, "ok")
   | .op o => let r := step ser d.st o; ({ d with st := r.1 }, showObs r.2)
   | .many os => ({ d with st := run ser d.st os }, "ok")
   | .syspush o => let r := step ser d.st o; ({ d with st := r.1 }, showObs r.2 ++ " cb=1")
@@ -251,7 +252,7 @@ def stepCore (d : DSt) (line : String) : DSt × String :=
     ({ d with st := r2.1 }, showObs r1.2)
   | .bad => (d, "bad-op")
 
-def sessionHeads : List String := ["sadd", "sdel", "spush", "syspush"]
+def sessionHeads : List String := ["sadd", "sdel", "sclose", "spush", "syspush"]
 
 /-- `at=b` on a session operation: the same operation on the second front-end's sessions -/
 def atB (line : String) : Option (Option String) :=
@@ -282,7 +283,9 @@ structure Spec where
   grp : List ((String × String) × List Nat) := []    -- (channel, front) ↦ listed ids; present = addressed
   created : Nat := 0
   live : List Nat := []
+  closed : List Nat := []                            -- registered connections whose socket has closed
   liveB : List Nat := []                             -- live connections of the second front-end service
+  closedB : List Nat := []
   bname : String := ""
   slots : List String := []
   dead : Bool := false                               -- a crash was reported: nothing more is judged until the next reset
@@ -294,6 +297,10 @@ def Spec.setGroup (s : Spec) (c f : String) (l : List Nat) : Spec :=
   if (s.group c f).isSome then
     { s with grp := s.grp.map fun e => if e.1.1 == c && e.1.2 == f then (e.1, l) else e }
   else { s with grp := s.grp ++ [((c, f), l)] }
+
+/-- connections a push can reach: registered and open -/
+def Spec.eff (s : Spec) : List Nat := s.live.filter fun i => !s.closed.contains i
+def Spec.effB (s : Spec) : List Nat := s.liveB.filter fun i => !s.closedB.contains i
 
 def Spec.uidOf (s : Spec) (c : String) : Option Nat := (s.chans.find? (·.1 == c)).map (·.2)
 
@@ -384,24 +391,24 @@ def checkBcast (s : Spec) (c route msg obs : String) : Option String :=
         match ps.find? (fun p => p.route != route || p.msg != msg) with
         | some p => some s!"wrong-route-or-payload front={p.front} route={p.route} msg={p.msg}"
         | none =>
-          let wantDl := expectDl s.live (listedFor s.lf) route (hexOfBytes (ser msg))
+          let wantDl := expectDl s.eff (listedFor s.lf) route (hexOfBytes (ser msg))
           let hex := hexOfBytes (ser msg)
           -- one sys.pushmsg per other known front-end that has listed members, carrying exactly its list
           let remote := ((directory.filter (fun f => f != s.lf && !(listedFor f).isEmpty)).map fun f =>
             s!"{f}/{showIds (listedFor f)}/{route}/{hex}")
           let wantSent := ";".intercalate remote
           let wantDlb := if s.bname != "" && s.bname != s.lf && directory.contains s.bname
-                         then expectDl s.liveB (listedFor s.bname) route hex else []
+                         then expectDl s.effB (listedFor s.bname) route hex else []
           if dl == wantDl then
             match kv rws "sent", (kv rws "dlb").bind parseDl with
             | some sent, some dlb =>
               if sent != wantSent then
                 some s!"remote-front-push-mismatch requests sent onward [{sent.take 300}] but the other front-ends with members are [{wantSent.take 300}]"
               else if dlb != wantDlb then
-                some s!"other-front-delivery-mismatch connections of {s.bname} received ids [{brief (dlb.map (·.1))}] but listed for it are [{brief (listedFor s.bname)}] and its live sessions are [{showIds s.liveB}]"
+                some s!"other-front-delivery-mismatch connections of {s.bname} received ids [{brief (dlb.map (·.1))}] but listed for it are [{brief (listedFor s.bname)}] and its open live sessions are [{showIds s.effB}]"
               else none
             | _, _ => some ("unparseable-observation " ++ (obs.take 300).toString)
-          else some s!"local-delivery-mismatch connections of {s.lf} received {dl.length} pushes (ids [{brief (dl.map (·.1))}]) but listed are [{brief (listedFor s.lf)}] and live sessions are [{showIds s.live}]"
+          else some s!"local-delivery-mismatch connections of {s.lf} received {dl.length} pushes (ids [{brief (dl.map (·.1))}]) but listed are [{brief (listedFor s.lf)}] and open live sessions are [{showIds s.eff}]"
       | _, _, _ => some ("unparseable-observation " ++ obs.take 300)
     | _ => some ("unparseable-observation " ++ obs.take 300)
 
@@ -447,17 +454,22 @@ def specCore (s : Spec) (line : String) : Spec × String :=
       | _, _ => out s (some ("unparseable-observation " ++ obs))
     | .op (.sdel id) =>
       let found := s.live.contains id
-      let s1 := { s with live := s.live.erase id }
+      let s1 := { s with live := s.live.erase id, closed := s.closed.filter (· != id) }
+      let wantObs := (if found then "ok" else "missing") ++ s!" live={showIds s1.live}"
+      out s1 (if obs == wantObs then none else some s!"session-set-mismatch want [{wantObs}] got [{obs}]")
+    | .op (.sclose id) =>
+      let found := s.live.contains id
+      let s1 := if found then { s with closed := id :: s.closed } else s
       let wantObs := (if found then "ok" else "missing") ++ s!" live={showIds s1.live}"
       out s1 (if obs == wantObs then none else some s!"session-set-mismatch want [{wantObs}] got [{obs}]")
     | .op (.spush ids route data) =>
-      let w := showExpDl (expectDl s.live ids route (hexOfBytes data))
-      out s (if obs == w then none else some s!"front-fanout-mismatch want [{w}] got [{obs}] live [{showIds s.live}]")
+      let w := showExpDl (expectDl s.eff ids route (hexOfBytes data))
+      out s (if obs == w then none else some s!"front-fanout-mismatch want [{w}] got [{obs}] registered [{showIds s.live}] closed [{showIds s.closed}]")
     | .syspush (.spush ids route data) =>
-      let w := showExpDl (expectDl s.live ids route (hexOfBytes data))
+      let w := showExpDl (expectDl s.eff ids route (hexOfBytes data))
       if obs == w ++ " cb=1" then out s none
       else if obs.startsWith (w ++ " cb=") then out s (some s!"pushmsg-callback-count {obs}")
-      else out s (some s!"front-fanout-mismatch want [{w} cb=1] got [{obs}] live [{showIds s.live}]")
+      else out s (some s!"front-fanout-mismatch want [{w} cb=1] got [{obs}] registered [{showIds s.live}] closed [{showIds s.closed}]")
     | .syspush _ => (s, "ok")
     | .saddPush ids route data =>
       -- the connection being added has its id and is listed: it is live for a push issued from OnSessionAdd
@@ -465,7 +477,7 @@ def specCore (s : Spec) (line : String) : Spec × String :=
       match (kv ows "id").bind parseU32, (kv ows "live").bind parseIds with
       | some id, some live =>
         let s1 := { s with live := s.live ++ [id] }
-        let w := s!"id={id} live={showIds s1.live} " ++ showExpDl (expectDl s1.live (ids.map fun o => o.getD id) route (hexOfBytes data))
+        let w := s!"id={id} live={showIds s1.live} " ++ showExpDl (expectDl s1.eff (ids.map fun o => o.getD id) route (hexOfBytes data))
         let r := if id == 0 || s.live.contains id then some s!"session-id-not-fresh {obs}"
                  else if live != s1.live then some s!"session-set-mismatch {obs}"
                  else if obs == w then none
@@ -492,9 +504,9 @@ def specCore (s : Spec) (line : String) : Spec × String :=
     | .sdelPush id ids route data =>
       -- the connection being removed is no longer live for a push issued from OnSessionRemove
       let found := s.live.contains id
-      let s1 := { s with live := s.live.erase id }
+      let s1 := { s with live := s.live.erase id, closed := s.closed.filter (· != id) }
       let w := (if found then "ok" else "missing") ++ s!" live={showIds s1.live} " ++
-        (if found then showExpDl (expectDl s1.live ids route (hexOfBytes data)) else "dl=")
+        (if found then showExpDl (expectDl s1.eff ids route (hexOfBytes data)) else "dl=")
       out s1 (if obs == w then none
               else if obs.startsWith ((if found then "ok" else "missing") ++ s!" live={showIds s1.live} ") then
                 some s!"session-remove-callback-push-mismatch want [{w}] got [{obs}]"
@@ -509,8 +521,8 @@ def specStep (s : Spec) (line : String) : Spec × String :=
       if s.bname == "" || s.dead then (s, "ok")
       else
         -- the same predicate, on the second front-end's own connection table
-        let r := specCore { s with live := s.liveB, liveB := s.live } (inner ++ "\t" ++ obs)
-        ({ r.1 with live := r.1.liveB, liveB := r.1.live },
+        let r := specCore { s with live := s.liveB, liveB := s.live, closed := s.closedB, closedB := s.closed } (inner ++ "\t" ++ obs)
+        ({ r.1 with live := r.1.liveB, liveB := r.1.live, closed := r.1.closedB, closedB := r.1.closed },
           if r.2.startsWith "VIOLATION" then r.2 ++ " (addressed to the second front-end " ++ s.bname ++ ")" else r.2)
     | none => (s, "ok")
     | some none => specCore s line
